@@ -3,7 +3,7 @@ import ast
 from fractions import Fraction
 
 from ..tyob import *  # noqa
-from ..tyob import analyse, expect, item, unmodelled_in
+from ..tyob import sibling_defaults, analyse, expect, item, unmodelled_in
 from ..poly import Normaliser, Poly, straightline_env
 from ..program import norm_stmt
 
@@ -88,6 +88,28 @@ def run(chk):
     r = analyse(chk, SE, lambda I, st, fi: dict(asig=sig(I, st), travel_times=AV(kind=K_SCALAR, dtype="real", shape=(), sign=S_NONNEG, origin=frozenset(["lit"]),
                                                                                   tags=frozenset(["p:travel_times"]), note="pyscalar"), trim=const_av(True)))
     expect(chk, "R-SE-TYPE", "eqsig/surface.py:calc_surface_energy(scalar travel time, trim=True)", r.ret, shape=("n",), deg={R: 2}, loc=r.fi.loc())
+    # ------------------------------------------------------------------ the third sibling, by interpretation: batch -> one row per travel time,
+    # one travel time (scalar or length 1) -> one series
+    for nodal in (True, False):
+        for arr in (False, True):
+            def build3(I, st, fi, nodal=nodal, arr=arr):
+                return dict(asig=sig(I, st), travel_times=tt(), nodal=const_av(nodal), up_red=red("up_red", arr), down_red=red("down_red", arr), trim=const_av(True))
+            r3 = analyse(chk, TSM, build3)
+            c3 = "eqsig/surface.py:get_time_shift_motions(nodal=%s,array-reduction=%s,trim=True)" % (nodal, arr)
+            unmodelled_in(r3, chk, "R-SE-TYPE", c3)
+            expect(chk, "R-SE-TYPE", c3, r3.ret, deg={R: 1}, kind=K_ARRAY, shape=(3, "n"),
+                   tags_has=["p:up_red", "p:down_red", "p:travel_times", "interp:linear", "pad"], loc=r3.fi.loc())
+    r3 = analyse(chk, TSM, lambda I, st, fi: dict(asig=sig(I, st), travel_times=AV(kind=K_SCALAR, dtype="real", shape=(), sign=S_NONNEG, origin=frozenset(["lit"]),
+                                                                                    tags=frozenset(["p:travel_times"]), note="pyscalar"), trim=const_av(True)))
+    unmodelled_in(r3, chk, "R-SE-TYPE", "eqsig/surface.py:get_time_shift_motions(scalar travel time)")
+    expect(chk, "R-SE-TYPE", "eqsig/surface.py:get_time_shift_motions(scalar travel time, trim=True)", r3.ret, shape=("n",), deg={R: 1}, loc=r3.fi.loc())
+    for q_ in (SE, TSM):
+        r3 = analyse(chk, q_, lambda I, st, fi: dict(asig=sig(I, st), travel_times=tt(1), trim=const_av(True)))
+        c3 = "eqsig/surface.py:%s(one travel time in a list, trim=True)" % q_.split(".")[-1]
+        unmodelled_in(r3, chk, "R-SE-TYPE", c3)
+        expect(chk, "R-SE-TYPE", c3, r3.ret, shape=("n",), loc=r3.fi.loc())
+    sibling_defaults(chk, "R-SE-SIB", [SE, CUM, TSM], neutral={"up_red": 1.0, "down_red": 1.0, "trim": False, "start": False},
+                     label="calc_surface_energy~calc_cum_abs_surface_energy~get_time_shift_motions")
     # ------------------------------------------------------------------ sign tables and wave construction (normal forms), siblings
     summ = {}
     for q in (SE, TSM):
